@@ -57,6 +57,9 @@ type Options struct {
 	TimeSkew        bool     `json:"timeSkew,omitempty"`  // false = skew check disabled
 	BoltSync        bool     `json:"boltSync,omitempty"`  // true = real fsync (C15)
 	StreamBuf       int      `json:"streamBuf,omitempty"` // MemStream: consumer buffer size (default 32 KiB)
+	// PutHook, if set, is called at the start of every Backend.PutObject (schedule control:
+	// the harness can hold an upload or a multipart completion at the storage boundary).
+	PutHook func(bucket, key string) `json:"-"`
 	// WrapFs, if set, wraps the object and metadata file systems of the fs
 	// backends (fault injection). Not serialised.
 	WrapFs func(afero.Fs) afero.Fs `json:"-"`
@@ -220,6 +223,14 @@ func (s *Stack) open() error {
 	default:
 		return fmt.Errorf("unknown kind %q", s.Kind)
 	}
+	if s.Opts.PutHook != nil {
+		hb := &hookBackend{Backend: be, hook: s.Opts.PutHook}
+		if vb, ok := be.(gofakes3.VersionedBackend); ok {
+			be = &hookVersioned{hookBackend: hb, VersionedBackend: vb}
+		} else {
+			be = hb
+		}
+	}
 	s.Backend = be
 	o := s.Opts
 	opts := []gofakes3.Option{
@@ -306,4 +317,20 @@ func (b *streamBackend) PutObject(bucket, key string, meta map[string]string, in
 
 func (b *streamBackend) CopyObject(srcBucket, srcKey, dstBucket, dstKey string, meta map[string]string) (gofakes3.CopyObjectResult, error) {
 	return gofakes3.CopyObject(b, srcBucket, srcKey, dstBucket, dstKey, meta)
+}
+
+// hookBackend calls a hook before PutObject reaches the wrapped backend.
+type hookBackend struct {
+	gofakes3.Backend
+	hook func(bucket, key string)
+}
+
+func (h *hookBackend) PutObject(bucket, key string, meta map[string]string, input io.Reader, size int64) (gofakes3.PutObjectResult, error) {
+	h.hook(bucket, key)
+	return h.Backend.PutObject(bucket, key, meta, input, size)
+}
+
+type hookVersioned struct {
+	*hookBackend
+	gofakes3.VersionedBackend
 }
